@@ -50,4 +50,21 @@ for d in sorted(glob.glob(root + '/C*-*')):
     if os.path.exists(extra):
         meta.update(json.load(open(extra)))
     json.dump(meta, open(os.path.join(d, 'meta.json'), 'w'), indent=1)
-print('meta written for', len(glob.glob(root + '/C*-*')))
+# detection table for DESIGN.md section 9.4
+rows = []
+for d in sorted(glob.glob(root + '/C*-*')):
+    sid = os.path.basename(d)
+    m = json.load(open(os.path.join(d, 'meta.json')))
+    det = m['detection']
+    obl = '; '.join('`%s`' % o[:90] for o in det['failing_obligations'][:2]) if det['detected_by_own_property_quick_check'] else '**not caught**'
+    rp = 'reproduced on the real code' if det['counterexample_replayed_on_real_code'] else ('no-failing-input-found' if det['detected_by_own_property_quick_check'] else '')
+    rows.append('| %s | %s | %s |' % (sid, obl, rp))
+table = '\n'.join(rows)
+dp = '/verif/DESIGN.md'
+ds = open(dp).read()
+if '@@TABLE@@' in ds:
+    ds = ds.replace('@@TABLE@@', '<!-- TABLE-BEGIN -->\n' + table + '\n<!-- TABLE-END -->')
+else:
+    ds = re.sub(r'<!-- TABLE-BEGIN -->.*?<!-- TABLE-END -->', lambda _: '<!-- TABLE-BEGIN -->\n' + table + '\n<!-- TABLE-END -->', ds, flags=re.S)
+open(dp, 'w').write(ds)
+print('meta written for', len(glob.glob(root + '/C*-*')), 'detected', sum(1 for r in rows if 'not caught' not in r))
